@@ -11,7 +11,7 @@ DT_RL = gen.DT_ALL + ["float16"]
 def gen_runs(rng, dtype, vclass="small", maxlen=20, style=None, length=None):
     """1-D array with a named run pattern"""
     style = style or rng.choice(STYLES)
-    L = length or rng.randint(1, maxlen)
+    L = length or (rng.randint(1, maxlen) if rng.random() < 0.95 else rng.choice([63, 64, 65, 128, 256]))      # also sizes exactly on / next to a power of two
     if style == "single":
         L = length or 1
     if vclass == "close":
